@@ -2671,6 +2671,56 @@ def state_codes_witness(ctx, which=("squeue", "sacct", "bjobs", "qstat")):
 
 
 # --------------------------------------------------------------------------- the local pool's task coroutine under fault injection
+# what the witness task prints: one line of 70000 bytes (a progress bar that only emits carriage returns, minified JSON, base64 -w0) and a last line without a newline
+TASK_STDOUT = b"x" * 70000 + b"\nlast line, no newline at the end"
+TASK_STDERR = b"warning: something\n"
+STREAM_LIMIT = 2 ** 16       # asyncio's default StreamReader limit: readline()/readuntil()/iteration fail on a longer line
+
+
+class StreamModel:
+    """asyncio.StreamReader over a finished process's pipe, by its documented behaviour: read(n) / read() return what is there, readline() and iteration raise
+    ValueError (from LimitOverrunError) when STREAM_LIMIT bytes arrive without the separator - and discard what was buffered."""
+
+    def __init__(self, data):
+        self.data = data
+        self.pos = 0
+
+    def read(self, n=-1):
+        end = len(self.data) if n is None or n < 0 else min(len(self.data), self.pos + n)
+        chunk, self.pos = self.data[self.pos:end], end
+        return chunk
+
+    def readuntil(self, sep=b"\n"):
+        i = self.data.find(sep, self.pos)
+        if i < 0:
+            if len(self.data) - self.pos > STREAM_LIMIT:
+                self.pos = len(self.data)
+                raise Raised("LimitOverrunError", "Separator is not found, and chunk exceed the limit")
+            chunk, self.pos = self.data[self.pos:], len(self.data)
+            raise Raised("IncompleteReadError", f"{len(chunk)} bytes read on a total of undefined expected bytes")
+        if i + len(sep) - self.pos > STREAM_LIMIT:
+            self.pos = min(len(self.data), self.pos + STREAM_LIMIT)     # the buffer is cleared
+            raise Raised("LimitOverrunError", "Separator is found, but chunk is longer than limit")
+        chunk, self.pos = self.data[self.pos:i + len(sep)], i + len(sep)
+        return chunk
+
+    def readline(self):
+        start = self.pos
+        try:
+            return self.readuntil(b"\n")
+        except Raised as exc:
+            if exc.kind == "IncompleteReadError":
+                return self.data[start:]
+            raise Raised("ValueError", exc.detail)
+
+    def __iter__(self):
+        while True:
+            line = self.readline()
+            if line == b"":
+                return
+            yield line
+
+
 class _TaskInterp(PureInterp):
     """PureInterp that counts awaits and delivers one CancelledError at the chosen await (before the awaited operation takes effect)."""
 
@@ -2679,6 +2729,31 @@ class _TaskInterp(PureInterp):
         self.cancel_at = cancel_at
         self.awaits = 0
         self.await_log = []
+
+    def e_Call(self, n, env, module, depth):
+        # asyncio.ensure_future(coro) / create_task(coro): in the sequential model the coroutine runs here; what it raises is kept in the task object and
+        # surfaces where the task is awaited, as in asyncio
+        f = n.func
+        canon = (self.index.canon(f, module) or "") if isinstance(f, (ast.Name, ast.Attribute)) else ""
+        if n.args and (canon in ("asyncio.ensure_future", "asyncio.create_task") or (isinstance(f, ast.Attribute) and f.attr == "create_task")) \
+                and isinstance(n.args[0], ast.Call) and not isinstance(n.args[0].func, ast.Lambda):
+            inner = n.args[0].func
+            iname = inner.attr if isinstance(inner, ast.Attribute) else inner.id if isinstance(inner, ast.Name) else None
+            if iname in self._own_coroutines(module):
+                try:
+                    return Obj("aiotask", spawned=True, value=self.eval(n.args[0], env, module, depth), exc=None)
+                except Raised as exc:
+                    if exc.kind == "CancelledError":
+                        raise
+                    return Obj("aiotask", spawned=True, value=None, exc=exc)
+        return super().e_Call(n, env, module, depth)
+
+    def _settle(self, v):
+        if isinstance(v, Obj) and v._name == "aiotask" and v.__dict__["_attrs"].get("spawned"):
+            if v.exc is not None:
+                raise v.exc
+            return v.value
+        return v
 
     def e_Await(self, n, env, module, depth):
         # awaiting one of the pool's own coroutines does not suspend: cancellation lands at the innermost real suspension point
@@ -2696,7 +2771,7 @@ class _TaskInterp(PureInterp):
         if self.cancel_at is not None and self.awaits == self.cancel_at:
             self.events.append(("cancel-delivered", self.awaits, ast.unparse(n.value)[:40]))
             raise Raised("CancelledError", "cancelled at await #%d" % self.awaits)
-        return self.eval(n.value, env, module, depth)
+        return self._settle(self.eval(n.value, env, module, depth))
 
 
 def _own_coroutines(self, module):
@@ -2755,7 +2830,7 @@ def eval_task(ctx, deps=None, rc=0, timeout=False, spawn_fails=False, log_fails=
     deps = dict(deps or {})
     ev = []
     sem = Obj("semaphore")
-    proc = Obj("proc", returncode=rc, pid=4321)
+    proc = Obj("proc", returncode=rc, pid=4321, stdout=StreamModel(TASK_STDOUT), stderr=StreamModel(TASK_STDERR))
     tasks = {d: Obj("aiotask", dep=d) for d in deps}
     states = {d: L(s) for d, s in deps.items()}
     states[7] = L("SUBMITTED")
@@ -2779,7 +2854,9 @@ def eval_task(ctx, deps=None, rc=0, timeout=False, spawn_fails=False, log_fails=
         if timeout is None and k.get("timeout") is not None:
             timeout = k["timeout"]
         ev.append(("wait_for", timeout))
-        if timeout_flag[0] and isinstance(aw, tuple) and aw and aw[0] == "COMM":
+        # the task's process outlives its time limit: the wait that carries that limit (whatever it waits for - communicate(), wait(), the copier tasks) times out, once
+        if timeout_flag[0] and timeout == 5 and not any(e[0] == "timed-out" for e in ev):
+            ev.append(("timed-out",))
             raise Raised("TimeoutError", "time limit")
         return aw[1] if isinstance(aw, tuple) and aw and aw[0] == "COMM" else aw
 
@@ -2788,7 +2865,7 @@ def eval_task(ctx, deps=None, rc=0, timeout=False, spawn_fails=False, log_fails=
     def h_communicate(recv, *a, **k):
         cur = states.get(7)
         ev.append(("communicate", cur.member if isinstance(cur, EnumVal) else cur))
-        return ("COMM", (b"OUT", b"ERR"))
+        return ("COMM", (proc.stdout.read(), proc.stderr.read()))
 
     def h_open(path, mode="r", *a, **k):
         mode = k.get("mode", mode)
@@ -2824,6 +2901,10 @@ def eval_task(ctx, deps=None, rc=0, timeout=False, spawn_fails=False, log_fails=
         "builtins.open": h_open,
         "attr:open": lambda recv, mode="r", *a, **k: h_open(str(recv), k.get("mode", mode)),
         "attr:write": lambda recv, data, *a: ev.append(("write", getattr(recv, "path", None), data)),
+        "attr:flush": lambda recv, *a: None, "attr:cancel": lambda recv, *a: ev.append(("task.cancel", getattr(recv, "dep", None))),
+        "attr:read": lambda recv, n_=-1: recv.read(n_), "attr:readline": lambda recv: recv.readline(), "attr:readuntil": lambda recv, sep=b"\n": recv.readuntil(sep),
+        "attr:at_eof": lambda recv: recv.pos >= len(recv.data),
+        "attr:readexactly": lambda recv, n_: recv.read(n_),
         "attr:write_bytes": lambda recv, data: (h_open(str(recv), "wb"), ev.append(("write", str(recv), data)))[1],
         "attr:write_text": lambda recv, data, *a, **k: (h_open(str(recv), "w"), ev.append(("write", str(recv), data)))[1],
     }
@@ -2949,9 +3030,16 @@ def task_coroutine_witness(ctx):
             if out["final"] != want:
                 diffs.append(f"a task whose process exits with status {rc} ends {out['final']}, expected {want}")
             ev = out["events"]
-            writes = {str(e[1]): e[2] for e in ev if e[0] == "write"}
-            if writes != {"/wd/.gwf/logs/NAME.v1.stdout": b"OUT", "/wd/.gwf/logs/NAME.v1.stderr": b"ERR"}:
-                diffs.append(f"exit status {rc}: the task's output is stored as {writes}; expected, for the task named NAME.v1, stdout -> <project>/.gwf/logs/NAME.v1.stdout and stderr -> NAME.v1.stderr, complete")
+            writes = {}
+            for e in ev:
+                if e[0] == "write" and isinstance(e[2], (bytes, bytearray)):
+                    writes[str(e[1])] = writes.get(str(e[1]), b"") + bytes(e[2])
+                elif e[0] == "write":
+                    writes[str(e[1])] = e[2]
+            if writes != {"/wd/.gwf/logs/NAME.v1.stdout": TASK_STDOUT, "/wd/.gwf/logs/NAME.v1.stderr": TASK_STDERR}:
+                short = {k_: (f"{len(v_)} bytes" if isinstance(v_, bytes) and len(v_) > 60 else v_) for k_, v_ in writes.items()}
+                diffs.append(f"exit status {rc}: the task's output (stdout: {len(TASK_STDOUT)} bytes with one line of 70000 bytes and no final newline; stderr: {len(TASK_STDERR)} bytes) "
+                             f"is stored as {short}; expected, for the task named NAME.v1, stdout -> <project>/.gwf/logs/NAME.v1.stdout and stderr -> NAME.v1.stderr, complete")
             opens = [e for e in ev if e[0] == "open"]
             if any(e[2] not in ("wb", "bw") for e in opens):
                 diffs.append(f"exit status {rc}: the logs are opened with modes {[e[2] for e in opens]}; the latest run's bytes must replace the file ('wb')")
